@@ -10,8 +10,9 @@
 
    Structure: `good d b` is the invariant on (destination, bit buffer); every compressor step
    is shown (i) to extend the ghost trace only by consing events (`ext`) and (ii) to preserve
-   `good` provided all events of the trace *after* the step satisfy event_ok (`stepP`).  The
-   two facts compose (stepP_trans), so event_ok of the final trace is carried backwards. *)
+   `good` provided all events of the trace *after* the step satisfy event_ok and
+   event_fits (`ev_good`, `stepP`).  The two facts compose (stepP_trans), so event_ok /
+   event_fits of the final trace are carried backwards. *)
 From Verif Require Import CodecSpec.
 From Coq Require Import Lia List ZArith.
 Import ListNotations.
@@ -72,7 +73,10 @@ Proof.
   intros [a Ha] [b Hb]. exists (b ++ a). rewrite Hb, Ha. apply app_assoc.
 Qed.
 
-Lemma ext_ok d d' : ext d d' -> Forall event_ok (dtrace d') -> Forall event_ok (dtrace d).
+(* what the theorem assumes of every event of the final trace *)
+Definition ev_good (e : event) : Prop := event_ok e /\ event_fits e.
+
+Lemma ext_ok d d' : ext d d' -> Forall ev_good (dtrace d') -> Forall ev_good (dtrace d).
 Proof.
   intros [a Ha] H. rewrite Ha in H. apply Forall_app in H. apply H.
 Qed.
@@ -121,7 +125,7 @@ Definition good (d : dest) (b : bitbuf) : Prop :=
    nothing failed *)
 Definition stepP {A} (dst : A -> dest) (G : A -> Prop) (c c' : A) (failed : bool) : Prop :=
   ext (dst c) (dst c') /\
-  (G c -> Forall event_ok (dtrace (dst c')) -> G c' /\ failed = false).
+  (G c -> Forall ev_good (dtrace (dst c')) -> G c' /\ failed = false).
 
 Lemma stepP_trans {A} (dst : A -> dest) G c1 c2 c3 f1 f2 :
   stepP dst G c1 c2 f1 -> stepP dst G c2 c3 f2 -> stepP dst G c1 c3 f2.
@@ -148,13 +152,13 @@ Section WithRender.
   (* ---------- emitting one event ---------- *)
 
   Lemma emit_block d b sync ts last chunks b' d1 failed :
-    good d b -> block_ok ts ->
+    good d b -> block_ok ts -> Forall tok_fits ts ->
     encode_block sync ts last b = (chunks, b') ->
     dest_write_all (dest_event d (EBlock ts last)) chunks = (d1, failed) ->
     good d1 b' /\ failed = false.
   Proof.
-    intros (Hf & Ho & Hl & Hby & Hbits) Hok E Ew.
-    pose proof (Hblock sync ts last b Hl Hok) as HB. rewrite E in HB.
+    intros (Hf & Ho & Hl & Hby & Hbits) Hok Hfit E Ew.
+    pose proof (Hblock sync ts last b Hl Hok Hfit) as HB. rewrite E in HB.
     destruct HB as (HB1 & HB2 & HB3 & _ & HB5).
     destruct (dest_write_all_ok chunks (dest_event d (EBlock ts last)) Hf)
       as (d' & Ew' & Hf' & Hc' & Ht').
@@ -235,9 +239,9 @@ Section WithRender.
     intros H.
     pose proof (dest_write_all_trace chunks (dest_event (ddest c) (EBlock (frev (dtoks c)) last))) as Ht.
     rewrite Ew in Ht. cbn [fst dest_event dtrace] in Ht.
-    assert (Hcommon : gd c -> Forall event_ok (dtrace d1) -> good d1 bb /\ failed0 = false).
-    { intros HG Hok. rewrite Ht in Hok. inversion Hok as [|e l Hev Hrest]; subst.
-      eapply emit_block; [exact HG|exact Hev|exact E|exact Ew]. }
+    assert (Hcommon : gd c -> Forall ev_good (dtrace d1) -> good d1 bb /\ failed0 = false).
+    { intros HG Hok. rewrite Ht in Hok. inversion Hok as [|e l [Hev Hfit] Hrest]; subst.
+      eapply emit_block; [exact HG|exact Hev|exact Hfit|exact E|exact Ew]. }
     destruct failed0; injection H as Hc Hfl; subst c' failed;
       (split; [apply (ext_cons _ _ _ Ht)|exact Hcommon]).
   Qed.
@@ -329,8 +333,8 @@ Section WithRender.
       intros H.
       pose proof (dest_write_all_trace chunks (dest_event (hdest h) (EHBlock (x :: data) final))) as Ht.
       rewrite Ew in Ht. cbn [fst dest_event dtrace] in Ht.
-      assert (Hcommon : gh h -> Forall event_ok (dtrace d1) -> good d1 bb /\ failed0 = false).
-      { intros HG Hok. rewrite Ht in Hok. inversion Hok as [|e l Hev Hrest]; subst.
+      assert (Hcommon : gh h -> Forall ev_good (dtrace d1) -> good d1 bb /\ failed0 = false).
+      { intros HG Hok. rewrite Ht in Hok. inversion Hok as [|e l [Hev _] Hrest]; subst.
         apply (emit_hblock (hdest h) (hbb h) (x :: data) final chunks bb d1 failed0 HG);
           [discriminate|exact Hev|exact E|exact Ew]. }
       destruct failed0; injection H as Hc Hfl; subst h' failed;
@@ -496,14 +500,17 @@ Section WithRender.
 
   Theorem stream_render : stream_render_statement.
   Proof.
-    intros sync level win4k h w flags _ Hrun Hok.
+    intros sync level win4k h w flags _ Hrun Hok Hfit.
     unfold hrun in Hrun.
     apply (wrun_step _ _ _ _ _ (hop_not_reset h)) in Hrun.
     destruct Hrun as [_ Hg].
     assert (Hinit : winv (mkw comp (comp_new sync level win4k None) ENone)).
     { split; [apply comp_new_good|discriminate]. }
-    assert (Hok' : Forall event_ok (dtrace (wdest w))).
-    { unfold run_trace in Hok. apply Forall_rev in Hok. rewrite rev_involutive in Hok. exact Hok. }
+    assert (Hok' : Forall ev_good (dtrace (wdest w))).
+    { unfold run_trace in Hok, Hfit.
+      apply Forall_rev in Hok. rewrite rev_involutive in Hok.
+      apply Forall_rev in Hfit. rewrite rev_involutive in Hfit.
+      unfold wdest. rewrite Forall_forall in *. intros e He. split; [apply Hok|apply Hfit]; exact He. }
     destruct (Hg Hinit Hok') as [[(Hf & Ho & Hl & Hby & Hbits) _] _].
     unfold run_bytes, run_trace, run_acc, bytes_ok.
     split; [|exact Hby].
